@@ -137,8 +137,12 @@ def generate(prop, rng, index, tier):
     rng.shuffle(order)
     template["var"]["missing_cells"] = sorted(rng.sample(range(ncell), rng.randint(0, max(0, ncell // 3)))) \
         if template["var"]["fill"] is not None else []
+    overwrite = None
+    if rng.random() < 0.25:
+        overwrite = {"grid": rng.randrange(ngrids), "dtype": rng.choice(["f8", "i8"]), "masked": rng.random() < 0.5,
+                     "salt": rng.randrange(50)}
     return {"engine": ENGINE, "prop": "C18", "template": template, "grids": grids, "write_order": order, "reads": reads,
-            "second_write": second, "template_reads": treads}
+            "second_write": second, "template_reads": treads, "overwrite": overwrite}
 
 
 # ------------------------------------------------------------------------------------------------
@@ -376,6 +380,46 @@ def execute(sc):
                             log.emit("read2", var=g["name"], ok=err is None)
                             _judge(res, g, {"dtype": rd.get("dtype"), "missing": None}, got, err, union2, shape, numpy,
                                    MPilotError, tag="second-write ")
+                # ---- another program of the same process writes a result of the same name to the same file --------------------
+                ow = sc.get("overwrite")
+                if ow:
+                    g0 = sc["grids"][ow["grid"] % len(sc["grids"])]
+                    ncell = int(numpy.prod(shape))
+                    newvals = [float((i * 7 + ow["salt"]) % 13) - 3.5 for i in range(ncell)] if ow["dtype"] == "f8" else \
+                        [int((i * 5 + ow["salt"]) % 11) - 2 for i in range(ncell)]
+                    newmask = [(i + ow["salt"]) % 4 == 0 for i in range(ncell)] if ow["masked"] else [False] * ncell
+                    g2 = {"name": g0["name"], "dtype": ow["dtype"], "values": newvals, "mask": newmask}
+                    prog3 = Program(libraries=NETCDF_LIBS, working_dir=root)
+                    data = numpy.array(newvals, dtype=("float64" if ow["dtype"] == "f8" else "int64")).reshape(shape)
+                    cmd = Command(g0["name"])
+                    cmd.is_finished = True
+                    cmd._result = numpy.ma.array(data, mask=numpy.array(newmask, dtype=bool).reshape(shape))
+                    prog3.commands[g0["name"]] = cmd
+                    prog3.add_command(prog3.find_command_class("EEMSWrite"), "__write3__",
+                                      {"OutFileName": "out.nc", "OutFieldNames": [g0["name"]], "DimensionFileName": tmpl,
+                                       "DimensionFieldName": t["var"]["name"]})
+                    prog3.add_command(prog3.find_command_class("EEMSRead"), "T0",
+                                      {"InFileName": "out.nc", "InFieldName": g0["name"]})
+                    log.emit("op-begin", op="OVERWRITE", var=g0["name"], dtype=ow["dtype"])
+                    try:
+                        prog3.commands["__write3__"].run()
+                        got, err = prog3.commands["T0"].result, None
+                    except SimAbort:
+                        raise
+                    except Exception as exc:  # noqa
+                        got, err = None, exc
+                    res.probe("the output file written again by another program of the same process")
+                    with Dataset(out) as ds3:
+                        left = sorted(v for v in ds3.variables if v not in [d for d, _ in t["dims"]] + [g0["name"], "crs"])
+                        if err is None and ((ds3.variables[g0["name"]].dtype.kind in "iu") != (ow["dtype"] == "i8")):
+                            res.violate("C18.write", "C18.write overwrite-element-kind-changed",
+                                        "%s written again as %s is stored as %s" % (g0["name"], ow["dtype"],
+                                                                                    ds3.variables[g0["name"]].dtype))
+                        if err is None and left:
+                            res.violate("C18.write", "C18.write overwrite-kept-old-variables",
+                                        "after writing %s alone to out.nc the file still holds %r" % (g0["name"], left))
+                    _judge(res, g2, {"dtype": None, "missing": None}, got, err, newmask, shape, numpy, MPilotError,
+                           tag="overwrite ")
                 # ---- reads of the template's own variable (negative fill value, missing cells) ---------------------------
                 for k, rd in enumerate(sc.get("template_reads") or []):
                     ncell = int(numpy.prod(shape))
